@@ -340,6 +340,14 @@ def correspond(ctx):
                 continue
             d.case('routes', KG, parser, lexer, 'if a b = c\nif if', (), rep, win)
             d.case('routes', KG, parser, lexer, 'if a b = c\nif d', (), rep, win, api='deepcopy')
+    # boundary family: inputs that start at offset 0 with a filtered opening token / end with a filtered closing one
+    for g, texts in P.BOUNDARY:
+        for text in texts[:5]:
+            for parser, lexer in P.CONFIGS:
+                d.case('boundary', g, parser, lexer, text, (), 'bytes', None)
+                if lexer not in P.DYNAMIC:
+                    for win in (('', ' z'), ('x\n', ''), ('\n(', ')')):
+                        d.case('boundary', g, parser, lexer, text, (), 'str', win)
     # fixed exotic witnesses: F9 (listed finding)
     for key, g, text, win in F9_CASES:
         for parser, lexer in (('lalr', 'basic'), ('lalr', 'contextual'), ('earley', 'basic')):
